@@ -83,7 +83,10 @@ def main():
             'detected_by': result['detected_by'], 'analysis_broken': result['analysis_broken'],
             'caught_by_target_check': any(d['property'] == pid for d in result['detected_by'])}
     json.dump(meta, open(os.path.join(dst, 'meta.json'), 'w'), indent=1)
-    print(json.dumps({k: v for k, v in result.items() if k != 'verdicts'}, indent=1)[:3000])
+    brief = {k: v for k, v in result.items() if k != 'verdicts'}
+    brief['detected_by'] = [{'property': d['property'], 'rules': d['rules']} for d in result['detected_by']]
+    brief['analysis_broken'] = [{'property': d['property'], 'exit2': d['exit2'][:200]} for d in result['analysis_broken']]
+    print(json.dumps(brief, indent=1))
     return 0
 
 sys.exit(main())
